@@ -21,14 +21,20 @@ CONF = {
                              ('struct-deep', ('H_E', 'M_E1', 'T_E1', 'O_E', 9, 5), 60000, (20000, 50))]),
     'gates': dict(quick=[('gates-wide', ('H_G', 'M_G', 'T_G', 'O_G', 3, 3, 'NoGates'), 3000),
                          ('gates-deep', ('H_G', 'M_E0', 'T_G2', 'O_G2', 5, 2, 'NoGates'), 2000),
-                         ('gates-sim', ('H_G', 'M_G', 'T_G', 'O_G', 9, 4, 'NoGates'), 2500, (700, 40))],
+                         ('gates-sim', ('H_G', 'M_G', 'T_G', 'O_G', 9, 4, 'NoGates'), 2500, (700, 40)),
+                         ('one-qubit', ('H_G1', 'M_E0', 'T_G1', 'O_G2', 4, 2, 'NoGates'), 300),
+                         ('four-qubits', ('H_G4', 'M_E0', 'T_G4', 'O_G2', 4, 2, 'NoGates'), 1500)],
                   thorough=[('gates-wide', ('H_G', 'M_G', 'T_G', 'O_G', 4, 3, 'NoGates'), 100000),
-                            ('gates-deep', ('H_G', 'M_E0', 'T_G2', 'O_G2', 6, 2, 'NoGates'), 100000)]),
+                            ('gates-deep', ('H_G', 'M_E0', 'T_G2', 'O_G2', 6, 2, 'NoGates'), 100000),
+                            ('one-qubit', ('H_G1', 'M_E0', 'T_G1', 'O_G2', 6, 2, 'NoGates'), 20000),
+                            ('four-qubits', ('H_G4', 'M_E0', 'T_G4', 'O_G2', 5, 2, 'NoGates'), 60000)]),
     'par': dict(quick=[('par', ('H_P', 'M_P', 'T_P', 'O_P', 4, 4, 'NoGates'), 6000)],
                 thorough=[('par', ('H_P', 'M_P', 'T_P', 'O_P', 5, 4, 'NoGates'), 150000)]),
 }
 
-CONF['views'] = dict(quick=[('gates-deep', ('H_G', 'M_E0', 'T_G2', 'O_G2', 4, 2, 'NoGates'), 6000), ('struct', ('H_E', 'M_E0', 'T_E', 'O_E', 3, 3), 6000)],
+CONF['views'] = dict(quick=[('gates-deep', ('H_G', 'M_E0', 'T_G2', 'O_G2', 4, 2, 'NoGates'), 6000), ('struct', ('H_E', 'M_E0', 'T_E', 'O_E', 3, 3), 6000),
+                            ('one-qubit', ('H_G1', 'M_E0', 'T_G1', 'O_G2', 3, 2, 'NoGates'), 800),
+                            ('four-qubits', ('H_G4', 'M_E0', 'T_G4', 'O_G2', 3, 2, 'NoGates'), 2000)],
                      thorough=CONF['gates']['thorough'] + CONF['struct']['thorough'])
 
 PROPS = {
